@@ -307,7 +307,12 @@ class Universe:
                 if len(tt) == 1 and via == "m" and not with_td and types[0] != "L":
                     target(val, name, **kw)  # types omitted: registered as type(value)
                 else:
-                    target(val, name, tt if len(tt) > 1 else tt[0], **kw)
+                    try:
+                        target(val, name, tt if len(tt) > 1 else tt[0], **kw)
+                    finally:
+                        # the caller re-uses its list of types afterwards: what was registered / announced must not follow it
+                        tt.clear()
+                        tt.append(HE)
                 return ("ok", None)
             if kind == "addf":
                 _, keyname, fkind, flabel, via = op
@@ -334,7 +339,11 @@ class Universe:
                         return make()
                 tt = [TYPES[t] for t in types]
                 target = ctx.add_resource_factory if via == "m" else ac.add_resource_factory
-                target(fcb, name, types=tt if len(tt) > 1 else tt[0], description="d" + flabel)
+                try:
+                    target(fcb, name, types=tt if len(tt) > 1 else tt[0], description="d" + flabel)
+                finally:
+                    tt.clear()
+                    tt.append(HE)
                 return ("ok", None)
             if kind == "bad":
                 return self._exec_bad(idx, ctx, op)
